@@ -88,6 +88,25 @@ def scenarios(rng, tier, runner):
             ls.append("ss.setraw 0 %d %d" % (1 + j, raw))
         ls += ["ds.encode 0", "ss.list 0", "ds.invalid"]
         out.append(Scenario("newref-%s-%d" % (order, i), ls, {"tables": "loc", "ed": 4, "template": t, "newrefs": vals}))
+    # associated fields on elements whose value comes with the template (BufrDescValue values): the value exists
+    # before Table C is applied, and must still get its associated field — the data section must have the length the
+    # regulated layout gives (added after a seeded change: the encoder silently left the prefix out)
+    from props import c18
+    for i in range(60 if tier == "quick" else 900):
+        ed = rng.choice([2, 3, 4, 4])
+        y = rng.choice([1, 3, 6, 8, 8, 12, 16])
+        els = [pick(c) for c in rng.sample(["num", "numneg", "code", "flag", "ccitt", "num"], rng.choice([1, 2, 3]))]
+        if i % 3 == 0:
+            t = [204000 + y, 31021, 204004, 31021] + els + [204000, pick("num"), 204000, pick("num")]
+        else:
+            t = [204000 + y, 31021] + els + [204000] + [pick("num")]
+        items = []
+        for d in t:
+            v = c18.in_range_value(rng, B, d) if (regs.F(d) == 0 and regs.X(d) != 31 and rng.random() < 0.8) else None
+            items.append("%06d" % d + ("=" + v if v else ""))
+        ls = ["T.use loc", "tm.newv 0 %d %s" % (ed, " ".join(items)), "tm.use 0", "ss.new", "ss.list 0", "ss.vals 0",
+              "ds.invalid", "ds.encode 0", "ds.decodelast 1 0 0", "dd.list 0", "dd.vals 0"]
+        out.append(Scenario("afdef-%d" % i, ls, {"tables": "loc", "ed": ed, "template": t, "afdef": True}))
     n = 1200 if tier == "quick" else 12000
     for i in range(n):
         name = rng.choice(["cur", "loc"])
@@ -197,14 +216,36 @@ def derive_newrefs(scn, subset):
                 out.append(r if r < (1 << (y - 1)) else -(r - (1 << (y - 1))))
     return out
 
+def afdef_oracle(scn, outs):
+    """the uncompressed data section of one subset has the length the layout of `ss.list` (itself checked against the
+    regulation) gives: sum of width + associated-field width over the nodes that are not passed over"""
+    lay = next((o for l, o in zip(scn.lines, outs) if l.startswith("ss.list")), None)
+    enc = next((o for l, o in zip(scn.lines, outs) if l.startswith("ds.encode")), None)
+    if not lay or not enc or lay in ("none", "-") or len(enc.split()) != 3:
+        return None
+    total = sum(max(n["nbits"], 0) + n["af"] for n in parse_nodes(lay) if not (n["flags"] & 4))
+    hexs = enc.split()[2]
+    got = 0 if hexs == "-" else len(hexs) // 2
+    want = (total + 7) // 8
+    if got not in (want, want + 1):
+        return ("the data section of one subset takes %d octets, the regulated layout (%d bits: every element with its "
+                "associated field) takes %d" % (got, total, want))
+    return None
+
 def oracle(scn, outs):
     name, ed = scn.meta.get("tables"), scn.meta.get("ed")
     B = None
     accepted = False
+    if scn.meta.get("afdef"):
+        r = afdef_oracle(scn, outs)
+        if r:
+            return r
     for line, o in zip(scn.lines, outs):
         t = line.split()
         if t[0] == "T.use" and t[1] in P:
             B = P[t[1]][0]
+        elif t[0] == "tm.newv":
+            ed = int(t[2]); accepted = True
         elif t[0] == "tm.new":
             ed = int(t[1]); accepted = o.startswith("ok")
         elif t[0] == "ss.list" and accepted and B is not None and o not in ("none", "-"):
